@@ -235,6 +235,11 @@ def child_reps():
             reps[name + "-neg"] = [name, [I(-1), V("v")]]
     reps["NegProduct3"] = ["Product", [I(-1), V("v"), V("w")]]
     reps["EmptyCall"] = ["Call", V("f0"), []]
+    reps["Tuple2"] = ["Tuple", [V("v"), V("w")]]
+    reps["Tuple1"] = ["Tuple", [V("v")]]
+    reps["Tuple-nested-first"] = ["Tuple", [["Tuple", [V("v"), V("w")]], V("u")]]
+    reps["Tuple-nested-last"] = ["Tuple", [V("u"), ["Tuple", [V("v"), V("w")]]]]
+    reps["Tuple-nested-single"] = ["Tuple", [["Tuple", [V("v"), V("w")]]]]
     reps["SliceAll"] = ["Subscript", V("A"), ["Slice", [None]]]
     return reps
 
@@ -324,6 +329,13 @@ def tree_case(draw):
         spec = ["Lookup", spec, draw(st.sampled_from(NAMES[:10]))]
     elif c == 3:
         spec = ["Subscript", V("D"), ["Tuple", [spec, ["Slice", [None, V("k")]]]]]
+    elif c == 4:
+        inner = ["Tuple", [spec, V("y")]]
+        outer = draw(st.sampled_from([[inner, V("z")], [V("z"), inner], [inner],
+                                      [inner, inner]]))
+        spec = draw(st.sampled_from([["Call", V("h"), [["Tuple", outer]]],
+                                     ["Subscript", V("D"), ["Tuple", outer]] if len(outer) > 1
+                                     else ["Call", V("h"), [["Tuple", outer], V("z")]]]))
     return spec
 
 # }}}
@@ -332,6 +344,8 @@ def tree_case(draw):
 def generate(ctx):
     n = 0
     for i, spec in enumerate(edge_cases()):
+        if not in_fragment(spec):
+            continue          # e.g. a 1-tuple as subscript index has no spelling
         if ctx.mine(i):
             ctx.judge("edge", spec)
             n += 1
